@@ -243,6 +243,9 @@ class SimScheduler:
                 if plan.reorder and tape.chance(plan.reorder, 8, f"{label}.dev"):
                     i = 1 + tape.draw(len(inflight) - 1, f"{label}.pick")
                 ctx.sched(f"{label}.complete", i)
+                if i:
+                    ctx.switch_note(f"{label}: in-flight batch #{i} of {len(inflight)} completes first "
+                                    f"({[str(a[0])[:40] for a in inflight[i].args[0]]})")
             else:
                 ctx.steps += 1
             f = inflight[i]
